@@ -400,6 +400,8 @@ func (p *Pattern) matchFields(state *MatcherState, subs []*pattern, f fielder, p
 // (next) succeeds with the bindings made on the way; the bindings of
 // an attempt that failed are undone, so that a caller can try another one.
 func (p *Pattern) matchIdentical(state *MatcherState, sub *pattern, typ types.Type, next func() bool) bool {
+	// An alias denotes the type it is declared to be.
+	typ = types.Unalias(typ)
 	switch sub.op {
 	case opVar:
 		name := sub.value.(string)
